@@ -19,6 +19,7 @@ import Ioc.RegistrySkel
 import Ioc.Generated.Facts
 import IocProofs.Lemmas.SemRegistry
 import IocProofs.Lemmas.SemFactory
+import IocProofs.Lemmas.SemCreate
 namespace Ioc.C04
 open Ioc Ioc.Reg
 
@@ -306,5 +307,17 @@ theorem C04_exec_is_code (r : Reg) (n : Nat) (early : Except Err Obj) (body : Li
     ∃ out, Go.run (Sem.facPrims early (Sem.createOf n body res)) Progs.fac_doGetComponent [.int n] r = some out ∧
       out.2 = (exec r (.getOrCreate n early body res)).1 :=
   ⟨_, Sem.doGetComponent_sem early _ r n, Sem.doGet_is_exec r n early body res⟩
+
+/-- the assumption under which M1 drives the registry ("the factory closure registers the early-reference factory first
+    thing, iff the name is in creation", `Reg.startCreate`), proved about the regenerated doCreateComponent: its first
+    effectful call is AddSingletonFactory exactly when the component is a singleton, circular references are allowed
+    and IsSingletonCurrentlyInCreation(name) — whatever its collaborators do.  (A seeded change that made early exposure
+    depend on the component having injection points broke this and started a second creation inside the first.) -/
+theorem C04_code_startCreate (d : Sem.DCC) (hc : Sem.dccConsistent d) :
+    ∃ out t, Go.run (Sem.dccPrims d) Progs.fac_doCreateComponent [.int d.n, .ref d.n 0] [] = some (out, t) ∧
+      (t.head? = some "addFactory" ↔ (d.singleton && d.allow && d.inCrOf d.n) = true) := by
+  refine ⟨_, _, Sem.doCreateComponent_sem d hc, ?_⟩
+  unfold Sem.createDecision
+  cases hx : (d.singleton && d.allow && d.inCrOf d.n) <;> simp only [hx] <;> (repeat' split) <;> simp_all
 
 end Ioc.C04
